@@ -166,7 +166,7 @@ mutual
     | .struct fields, v => (match v with
         | .struct vs => HasTypeFields fields vs
         | _ => False)
-    | .named _ _, _ => False
+    | .named _ u, v => HasType u v          -- a declared type without marshal methods: the values of its underlying type
     | .ref _, _ => False
   def HasTypeFields : List (String × String × GoType) → List GoValue → Prop
     | [], vs => vs = []
@@ -201,7 +201,7 @@ mutual
     | .struct fields, v => (match v with
         | .struct vs => .obj (encodeFields fields vs)
         | _ => .null)
-    | .named _ _, _ => .null
+    | .named _ u, v => encode u v            -- … encoded like its underlying type
     | .ref _, _ => .null
   /-- the members of a struct: the fields in order, without the omitted ones -/
   def encodeFields : List (String × String × GoType) → List GoValue → List (String × Json)
@@ -250,7 +250,7 @@ mutual
             | some b => b
             | none => (decodableFold fields p.1 p.2).getD false    -- no field at all: unknown field error
         | _ => false)
-    | .named _ _, _ => false
+    | .named _ u, j => decodable u j         -- … decoded like its underlying type
     | .ref _, _ => false
   /-- the field whose JSON name is exactly the key, if any -/
   def decodableExact : List (String × String × GoType) → String → Json → Option Bool
